@@ -971,6 +971,25 @@ func partC(e *engine) {
 			crashes++
 			msg, frame := crashShape(o.stderr)
 			sig := "smoke-crash: " + msg + " @ " + frame
+			if set[i].group == "unbounded-numerics" {
+				// identified by the option that was given an absurd value, not by where the allocation fails
+				f := strings.Fields(set[i].desc)
+				side, key := "", ""
+				for _, t := range f {
+					k, _, _ := strings.Cut(t, "=")
+					if side == "" && (k == "server" || k == "client") {
+						side = k
+					}
+					key = k
+				}
+				if key == "client" || key == "server" {
+					key = "?"
+				}
+				if strings.HasPrefix(f[len(f)-1], "client=") {
+					side = "client"
+				}
+				sig = "smoke-crash[unbounded-numerics]: " + side + " " + key
+			}
 			if crashSeen[sig] {
 				continue // the first (simplest) configuration with this crash is the one reported
 			}
